@@ -176,10 +176,19 @@ func (prog *Program) resolveType(s string, pkg *types.Package) (types.Type, erro
 			ip = prog.importsOf(pkg)[pn]
 		}
 		if ip == nil {
-			for _, p := range prog.All {
-				if p.Types != nil && p.Types.Name() == pn {
-					ip = p.Types
-					break
+			// prefer packages of the repository, then any loaded package with that name that has the type
+			for pass := 0; pass < 2 && ip == nil; pass++ {
+				for _, p := range prog.All {
+					if p.Types == nil || p.Types.Name() != pn {
+						continue
+					}
+					if pass == 0 && !strings.HasPrefix(p.PkgPath, "github.com/containerd/nri") {
+						continue
+					}
+					if p.Types.Scope().Lookup(tn) != nil {
+						ip = p.Types
+						break
+					}
 				}
 			}
 		}
